@@ -158,6 +158,16 @@ Init == /\ lead = 0 /\ phase \in (IF Phased THEN 0..(DayLen - 1) ELSE {0})
 
 \* Update(c): one query with result category c is handed to the module.  It is
 \* counted (once, in the observed hour, in category c) iff collection is on.
+\* PAYLOAD INDEPENDENCE.  The action has no parameter but the category on
+\* purpose: a real query also carries a client, a domain, a processing time
+\* and upstream statistics, and the statement quantifies over all of them, but
+\* none of them may influence whether, where or how often the query shows up
+\* in the totals and the series.  Every concrete payload is therefore a
+\* refinement of this one transition; the harness draws the payload fields
+\* over their boundary values (zero / sub-microsecond / huge processing time,
+\* one-character and maximal names, nil / empty / long upstream lists, cached
+\* and failed answers) from the seed in both binding directions, and the
+\* reply is held against Reply / ObsOK of the payload-free state.
 DoUpdate(c) ==
     /\ up
     /\ IF enabled
@@ -292,7 +302,9 @@ ExactlyOneCategory ==
         Stored[a].n.t = FoldSet(LAMBDA c, acc : acc + Stored[a].n.by[c], 0, Cats)
 
 \* The totals reported equal the number of counted queries whose hour lies
-\* inside the window -- for every admissible choice K of the optional slots
+\* inside the window, whatever else the queries carried (the ledger, like the
+\* state, records hour and category only: see PAYLOAD INDEPENDENCE at Update)
+\* -- for every admissible choice K of the optional slots
 \* the totals are the never-cut ledger entries of the window plus the entries
 \* of the chosen optional hours.
 Conservation ==
